@@ -144,7 +144,26 @@ def run(prog, world, sem, rep):
         from ..cfg import sccs
         comps = sccs(pv.be.cfg)
         if not comps:
-            rep.ob("C02.f", "%s loops" % pname, False, "anchor-lost: planner %s has no loop" % pname, where(pv.body))
+            # a planner written as an iterator pipeline: there is no loop to leave early; the plan must be collected from a walk
+            # over the whole validator list (no adaptor that drops or cuts entries)
+            from ..iters import pipeline, droppers, strip_coll, last
+            cols = find(world.norm(world.ret_expr(pv.body), 0, False), lambda y: y.op == "call" and last(y.info) in ("collect", "from_iter") and y.args)
+            okc = bool(cols)
+            why = []
+            for c in cols:
+                dr = droppers(world, c.args[0])
+                base = strip_coll(world, pipeline(world, c.args[0])[1])
+                if dr:
+                    okc = False
+                    why.append("the plan is collected through %s" % [d[0] for d in dr])
+                if not (base.op == "param" and base.info[1] == 2):
+                    okc = False
+                    why.append("the plan is not collected from a walk over the validator list (%s)" % show(base, 3))
+            if cols:
+                rep.ob("C02.f", "%s distributes until nothing is left" % pname, okc and (not used or pname != "calculate_delegations"),
+                       "; ".join(why) if why else "no loop: the plan is collected from a walk over every validator (no dropping adaptor)", where(pv.body), key="C02.f | %s" % pname)
+            else:
+                rep.ob("C02.f", "%s loops" % pname, False, "anchor-lost: planner %s has neither a loop nor a collected plan" % pname, where(pv.body))
             continue
         bad = []
 
